@@ -547,6 +547,42 @@ def policy_family(kind, inst, gen):
 
 
 # --------------------------------------------------------------------------- RateLimitedEntity in a real Simulation
+def run_bounded(sim, max_events_per_instant=5000, max_events=200000, wall_s=30.0):
+    """hsverif.util.run_bounded without signals (usable from the family threads): the frozen-clock
+    and event-count watchdog wraps the heap's pop; the wall-clock limit is checked there too."""
+    import time as _time
+    from hsverif.util import FrozenClock, Timeout
+    heap = sim._event_heap
+    orig_pop = heap.pop
+    st = {"t": None, "same": 0, "total": 0}
+    deadline = _time.time() + wall_s
+
+    def pop():
+        ev = orig_pop()
+        st["total"] += 1
+        if ev.time == st["t"]:
+            st["same"] += 1
+            if st["same"] > max_events_per_instant:
+                raise FrozenClock(f"more than {max_events_per_instant} pops at t={ev.time!r}")
+        else:
+            st["t"], st["same"] = ev.time, 0
+        if st["total"] > max_events:
+            raise FrozenClock(f"more than {max_events} pops in total")
+        if st["total"] % 64 == 0 and _time.time() > deadline:
+            raise Timeout("wall-clock limit")
+        return ev
+
+    heap.pop = pop
+    try:
+        return sim.run(), "ok"
+    except FrozenClock as e:
+        return None, "frozen-clock" if "at t=" in str(e) else "too-many-events"
+    except Timeout:
+        return None, "wall-timeout"
+    finally:
+        heap.pop = orig_pop
+
+
 def _ent_terms(c):
     """(policy config term, initial policy state term) for the entity correspondence."""
     O = "Qops" if c["inst"] == "q" else "Fops"
@@ -584,7 +620,6 @@ def impl_entity(c, wall=120.0):
     from happysimulator.core.event import Event
     from happysimulator.core.simulation import Simulation
     from happysimulator.core.temporal import Instant
-    from hsverif.util import run_bounded
     kind = KINDS[c["kind"]]
     pol = kind.make(c["params"])
     trace, got = [], []
@@ -726,7 +761,6 @@ def impl_inductor(c, wall=120.0):
     from happysimulator.core.event import Event
     from happysimulator.core.simulation import Simulation
     from happysimulator.core.temporal import Instant
-    from hsverif.util import run_bounded
     trace, got = [], []
     tau = c["tau"]
 
@@ -811,7 +845,6 @@ def impl_null(c, wall=120.0):
     from happysimulator.core.event import Event
     from happysimulator.core.simulation import Simulation
     from happysimulator.core.temporal import Instant
-    from hsverif.util import run_bounded
     trace, got = [], []
 
     class Sink(Entity):
@@ -865,7 +898,6 @@ def impl_dist(c, wall=120.0):
     from happysimulator.core.event import Event
     from happysimulator.core.simulation import Simulation
     from happysimulator.core.temporal import Instant
-    from hsverif.util import run_bounded
     trace, got = [], []
     store = KVStore("kv", read_latency=c["rl"], write_latency=c["wl"])
     lims = []
@@ -1064,6 +1096,9 @@ def run(ctx):
     if not ctx.quick:
         # every sequence of <= 4 probes (tua + acquire) over a 6-point grid around a window/refill boundary
         plan += [enum_family(k) for k in ("tb", "lk", "sw", "fw")]
+    for fam, k in plan:
+        # worker processes (each re-imports happysimulator) only pay off for large batches
+        fam.parallel = fam.parallel and k > 250
     stats = run_families(ctx, plan)
     merge_stats(ctx, stats, "random structured op sequences per policy (dense/sparse/burst/boundary-aligned, ns-adjacent, "
                             "probe = tua followed by acquire, drain = follow returned waits); non-trivial = both an admitted "
